@@ -1,7 +1,7 @@
 (* C06 - Supervisor: state map converges to true runnable states; subscribers see it.
    Statements only. *)
 From Coq Require Import List Bool Arith.
-From GS Require Import LTS Supervisor SupAccept SupProps SupInv SupGate SupState.
+From GS Require Import LTS Supervisor SupAccept SupProps SupInv SupGate SupState SupFinal SupSubs.
 Import ListNotations.
 
 (* While the supervisor is running (its context not cancelled), in EVERY quiescent state
@@ -33,11 +33,29 @@ Theorem C06_no_send_on_closed : forall c s,
   reachable_sup c s -> forall b, In b (subs s) -> sub_closed b = true -> sub_registered b = false.
 Proof. exact InvSubs_reachable. Qed.
 
-(* KNOWN FINDING (monitor-overwrites-final-state): the clause "after shutdown the map reports the
-   state each runnable had when its Stop() returned" is FALSE of the code as it is, and of its
-   faithful model: a monitor that is still catching up when the context is cancelled can apply one
-   stale value over the final state stored by Shutdown and then leave.  Witness: the runnable goes
-   to state 4 then 5 during Stop; Shutdown stores 5; the monitor then applies the pending 4. *)
+(* After shutdown (the wait for the supervisor's goroutines completed, i.e. the shutdown timeout did not
+   fire) the map reports, for every Stateable runnable that was stopped, the state Shutdown recorded when
+   its Stop() returned - whatever a state monitor that was still catching up wrote in between.
+   This is /repo after the repair of the former finding monitor-overwrites-final-state (Shutdown stores the
+   recorded final states again once the monitors are gone). *)
+Theorem C06_after_shutdown : forall c s i v,
+  reachable_sup c s -> sd s = SdDone -> sd_timed_out s = false ->
+  fin_at s i = Some v -> smap_at s i = Some v.
+Proof. exact sup_c06_after_shutdown. Qed.
+
+(* what is recorded is the runnable's state at the moment its Stop() returns ... *)
+Theorem C06_final_is_state_at_stopret : forall c s i s',
+  step c s (LStopRet i) = Some s' -> stateable (spec c i) = true -> i < length (finals (aux s)) ->
+  fin_at s' i = Some (cur_at s i).
+Proof. exact stopret_records. Qed.
+
+(* ... and nothing but a Stop() return ever changes a recorded value *)
+Theorem C06_final_stable : forall c s l s' i v,
+  step c s l = Some s' -> fin_at s i = Some v -> (forall j, l <> LStopRet j) -> fin_at s' i = Some v.
+Proof. exact finals_stable. Qed.
+
+(* The witness of the former finding: the runnable goes to state 4 then 5 during Stop; Shutdown records 5;
+   the monitor then applies the pending 4 over it; the stores after the wait put 5 back. *)
 Definition c06_bad_cfg : config :=
   {| specs := [ {| stateable := true; reloadable := false; rsender := false; ssender := false;
                    stop_style := StopNonBlocking; run_exit := ExitOnSignal; held_sub := false |} ];
@@ -46,13 +64,19 @@ Definition c06_bad_sched : list label :=
   [LLaunch 0; LRunCall 0; LMonSub 0; LMonRecv 0; LPoll 0 true; LGateDecide 0;
    LCall 1 OpShutdown; LCallerGo 1; LStopCall 0; LEmit 0 4; LEmit 0 5; LRunRet 0 None; LStopRet 0;
    LMonRecv 0; LSdCancel; LStmExit; LSdWgDone; LReapCtx; LMainShutdown; LMainReturn ResNil].
-Theorem C06_after_shutdown_refuted :
+Example C06_witness_before_restore :
+  exists s1, run (step c06_bad_cfg) (init c06_bad_cfg) (firstn 14 c06_bad_sched) = Some s1 /\
+             smap_at s1 0 = Some 4 /\ fin_at s1 0 = Some 5.
+Proof. eexists. split; [vm_compute; reflexivity|]. split; reflexivity. Qed.
+Example C06_witness_repaired :
   exists s, run (step c06_bad_cfg) (init c06_bad_cfg) c06_bad_sched = Some s /\
-            main s = MReturned ResNil /\ cur_at s 0 = 5 /\ smap_at s 0 = Some 4.
+            main s = MReturned ResNil /\ cur_at s 0 = 5 /\ smap_at s 0 = Some 5.
 Proof. eexists. split; [vm_compute; reflexivity|]. split; [reflexivity|]. split; reflexivity. Qed.
 
 Print Assumptions C06_converge.
-Print Assumptions C06_after_shutdown_refuted.
+Print Assumptions C06_after_shutdown.
+Print Assumptions C06_final_is_state_at_stopret.
+Print Assumptions C06_final_stable.
 Print Assumptions C06_dedupe.
 Print Assumptions C06_close_once.
 Print Assumptions C06_no_send_on_closed.
@@ -69,3 +93,60 @@ Example C06_ex_late_subscription :
   exists s, run (step c06_cfg) (init c06_cfg) c06_sched = Some s /\
             smap_at s 0 = Some 2 /\ cur_at s 0 = 2 /\ ran (rn_at s 0).
 Proof. eexists. split; [vm_compute; reflexivity|]. split; [reflexivity|]. split; [reflexivity|exact Logic.I]. Qed.
+
+(* ---- the subscriber clause ---- *)
+
+(* "A subscriber that keeps up eventually receives a snapshot equal to the quiescent map" is FALSE
+   of the model as it stands (SupSubs.subs_sched): the subscriber arrives before runnable 1 is
+   started; startRunnable stores runnable 1's initial state without a broadcast and the monitor
+   discards the first channel value because it equals the stored one.  At quiescence, context not
+   cancelled, channel drained, still registered: the subscriber's newest snapshot lacks the entry. *)
+Theorem C06_subscriber_refuted :
+  exists c ls s b,
+    run (step c) (init c) ls = Some s /\ quiescent c s = true /\ ctx_done s = false /\
+    find_sub 7 (subs s) = Some b /\ sub_registered b = true /\ sub_buf b = [] /\
+    last_sent s 7 = Some [Some 0; None] /\ smap s = [Some 0; Some 0].
+Proof. exact c06_subscriber_refuted. Qed.
+
+(* What holds: from the moment SubscribeStateChanges ran (LSubDo c0), along every run in which
+   (run_ok) the subscriber's channel has room at every broadcast, the stores done by startRunnable /
+   Shutdown / the reload manager do not change the map (the map is written by monitors only), the
+   state-monitor manager has not exited and c0 is not unsubscribed: in every quiescent state the
+   newest snapshot sent to c0 - the last one in its channel, or the last one it took - IS the map. *)
+Theorem C06_subscriber : forall c c0 s0 s1 ls s,
+  reachable_sup c s0 -> step c s0 (LSubDo c0) = Some s1 ->
+  run (step c) s1 ls = Some s -> run_ok c c0 s1 ls ->
+  quiescent c s = true -> last_sent s c0 = Some (smap s).
+Proof. exact sup_c06_subscriber. Qed.
+
+(* ... so a subscriber that has drained its channel has received the quiescent map last. *)
+Theorem C06_subscriber_drained : forall c c0 s0 s1 ls s b,
+  reachable_sup c s0 -> step c s0 (LSubDo c0) = Some s1 ->
+  run (step c) s1 ls = Some s -> run_ok c c0 s1 ls ->
+  quiescent c s = true -> find_sub c0 (subs s) = Some b -> sub_buf b = [] ->
+  last_recv c0 (hist s) = Some (smap s).
+Proof. exact sup_c06_subscriber_drained. Qed.
+
+Print Assumptions C06_subscriber_refuted.
+Print Assumptions C06_subscriber.
+Print Assumptions C06_subscriber_drained.
+
+(* non-vacuity: a subscriber follows a state change of a running runnable *)
+Definition c06_sub_pre : list label := [LLaunch 0; LRunCall 0; LMonSub 0; LMonRecv 0; LSubscribe 7].
+Definition c06_sub_run : list label :=
+  [LSubRecv 7 [Some 0]; LEmit 0 2; LMonRecv 0; LMonBcast 0; LSubRecv 7 [Some 2]; LPoll 0 true; LGateDecide 0].
+Example C06_ex_subscriber :
+  exists s0 s1 s b,
+    run (step c06_bad_cfg) (init c06_bad_cfg) c06_sub_pre = Some s0 /\
+    step c06_bad_cfg s0 (LSubDo 7) = Some s1 /\
+    run (step c06_bad_cfg) s1 c06_sub_run = Some s /\ run_ok c06_bad_cfg 7 s1 c06_sub_run /\
+    quiescent c06_bad_cfg s = true /\ find_sub 7 (subs s) = Some b /\ sub_buf b = [] /\
+    last_recv 7 (hist s) = Some [Some 2] /\ smap s = [Some 2].
+Proof.
+  eexists. eexists. eexists. eexists.
+  split; [vm_compute; reflexivity|]. split; [vm_compute; reflexivity|]. split; [vm_compute; reflexivity|].
+  split.
+  { vm_compute. repeat split; try exact Logic.I. intros b Hb. injection Hb as <-. cbn. repeat constructor. }
+  split; [vm_compute; reflexivity|]. split; [vm_compute; reflexivity|]. split; [reflexivity|].
+  split; vm_compute; reflexivity.
+Qed.
